@@ -39,8 +39,9 @@ def indexReview : List (String × Nat × String) := [
   ("asBool", 2, "i ranges over t."),
   ("stack.PeekByteArray", 1, "idx validated against the depth first."),
   ("stack.nipN", 5, "idx validated against the depth first; the three slicing cases are within [0, sz]."),
-  ("State.Opcode", 2, "debugger API on a snapshot (not on the execution path): indices are the clamped ones of thread.State, -1 for an empty script — outside C07."),
-  ("State.RemainingScript", 2, "debugger API on a snapshot, as State.Opcode."),
+  ("State.Opcode", 2, "debugger API on a snapshot: guarded by hasOpcode (fix 32f5d76 — the clamped index is -1 for an empty script, which used to panic)."),
+  ("State.RemainingScript", 2, "debugger API on a snapshot: guarded by hasOpcode, as State.Opcode."),
+  ("State.hasOpcode", 1, "s.Scripts[s.ScriptIdx] after the range test on ScriptIdx (short-circuit &&)."),
   ("thread.State", 13, "scriptIdx / offset clamped before use; the copy loops range over the source slices and index freshly made slices of the same length. Model: clampSnap."),
   ("execOpts.validate", 4, "o.tx.Inputs[o.inputIdx] after the range test on inputIdx (fix 180950e)."),
   ("getStack", 1, "array allocated with the stack depth, i below it."),
